@@ -15,9 +15,11 @@ R = random.Random(seed)
 # (kind, namespace object, CRD object): two namespaces, two CRDs, a built-in object, three custom resources, a namespace
 UKINDS = [("KNs", "None", "None"), ("KNs", "None", "None"), ("KCrd", "None", "None"), ("KCrd", "None", "None"),
           ("KPlain", "(Some 0)", "None"), ("KPlain", "(Some 1)", "(Some 2)"), ("KPlain", "None", "(Some 3)"),
-          ("KPlain", "(Some 0)", "(Some 2)"), ("KNs", "None", "None")]
+          ("KPlain", "(Some 0)", "(Some 2)"), ("KApiSvc", "None", "None"), ("KApiSvc", "None", "None"), ("KNs", "None", "None")]
 CRD_OF = {5: 2, 6: 3, 7: 2}
-NID = 9
+APISVC = [8, 9]   # apiregistration.k8s.io APIService entries: the client-side fallback after a stream error (APISVC_P: stream fault probability)
+APISVC_P = float(os.environ.get("APISVC_P", "0.5"))
+NID = 11
 # DYN_WF = wf (default): the official wf_b (its clause 8: a TRACKED custom resource of the cluster has its CRD in the cluster);
 # DYN_WF = crd: additionally every custom resource of the cluster has its CRD in the cluster
 DYN_WF = os.environ.get("DYN_WF", "wf")
@@ -70,9 +72,10 @@ def gen():
         if R.random() < 0.05 and deps: deps.append(deps[0])
         locs.append("mkL %d %s %s %s %s %d" % (i, nl(deps), b(R.random() < 0.04), b(i == NID - 1 or R.random() < 0.04), b(R.random() < 0.1), R.randint(1, 2)))
     dry = "DNone" if focus else R.choice(["DNone"] * 4 + ["DClient", "DServer"])
+    ssa = R.random() < (0.5 if any(i in APISVC for i in lids) else 0.2)
     opts = "mkO %s %s %s %s %s %s %s %s %s %s %s" % (
         b(destroy), b(destroy or focus or R.random() < 0.8), R.choice(["PMustMatch", "PAdoptIfNoInventory", "PAdoptAll"]), dry,
-        R.choice(["VExitEarly", "VSkipInvalid", "VSkipInvalid"]), b(R.random() < 0.2), b(R.random() < 0.5), b(R.random() < 0.5),
+        R.choice(["VExitEarly", "VSkipInvalid", "VSkipInvalid"]), b(ssa), b(R.random() < 0.5), b(R.random() < 0.5),
         b(R.random() < 0.3), R.choice(["PropBackground", "PropForeground", "PropOrphan"]), b(R.random() < 0.15))
     waits = []
     for k in range(8):
@@ -94,10 +97,17 @@ def gen():
         waits.append("mkW [%s] %s" % ("; ".join(ds), R.choice(["WTimeout", "WTimeout", "WCancel"])))
     faults = []
     for _ in range(R.choice([0, 0, 0, 0, 0, 1]) if focus else R.choice([0, 0, 0, 1, 1, 2])):
-        k = R.randrange(9)
+        k = R.randrange(10)
         i = R.randrange(NID)
         faults.append(["FInvList %d" % R.randrange(6), "FInvGet %d" % R.randrange(2), "FInvWrite %d" % R.randrange(3), "FInvDelete", "FNsCreate",
-                       "FGet %d %d" % (i, R.randrange(3)), "FApply %d" % i, "FUpdate %d" % i, "FDelete %d" % i][k])
+                       "FGet %d %d" % (i, R.randrange(3)), "FApply %d" % i, "FUpdate %d" % i, "FDelete %d" % i,
+                       "FStream %d %d" % (i, R.randrange(2))][k])
+    for i in lids:
+        # the apply PATCH of an APIService dies with a stream error; sometimes a request of the fallback is rejected too
+        if i in APISVC and R.random() < APISVC_P:
+            faults.append("FStream %d 0" % i)
+            if R.random() < 0.4:
+                faults.append(R.choice(["FGet %d %d" % (i, R.randrange(2)), "FApply %d" % i, "FStream %d 1" % i]))
     cancel = R.choice(["CNever"] * 6 + ["CBeforeSync", "(CDuringReq %d)" % R.randrange(NID)])
     werr = "None" if R.random() < 0.9 else "(Some %d)" % R.randrange(3)
     env = "mkE [%s] [%s] %s %s" % ("; ".join(faults), "; ".join(waits), cancel, werr)
@@ -176,6 +186,22 @@ Definition dstats := Eval vm_compute in
                     existsb (fun it => match it with IEv (EValidation l) => existsb (crd_absent sc c) l | _ => false end) (out_trace (run sc c))) cases),
    length (filter (fun p => let '(c, sc) := p in okb sc c (run sc c) && existsb (crd_absent sc c) (prev_of c)) cases)).
 Print dstats.
+(* the APIService fallback: an apply PATCH of an APIService died under the server-side option; the apply succeeded / failed *)
+Definition fb_died (sc : scenario) (out : outcome) (i : id) : bool :=
+  o_ssa (sc_opts sc) && is_apisvc sc i && faulted sc (FStream i 0)
+  && existsb (fun it => match it with IReq (RPatch j true _) false _ _ => Nat.eqb i j | _ => false end) (out_trace out).
+Definition astats := Eval vm_compute in
+  (length (filter (fun p => let '(c, sc) := p in let out := run sc c in okb sc c out &&
+                    existsb (fun i => fb_died sc out i) (seq 0 (length (sc_univ sc)))) cases),
+   length (filter (fun p => let '(c, sc) := p in let out := run sc c in okb sc c out &&
+                    existsb (fun i => fb_died sc out i &&
+                       existsb (fun it => match it with IEv (EApply _ j AOk) => Nat.eqb i j | _ => false end) (out_trace out))
+                            (seq 0 (length (sc_univ sc)))) cases),
+   length (filter (fun p => let '(c, sc) := p in let out := run sc c in okb sc c out &&
+                    existsb (fun i => fb_died sc out i &&
+                       existsb (fun it => match it with IReq (RCreate j _) true _ _ => Nat.eqb i j | _ => false end) (out_trace out))
+                            (seq 0 (length (sc_univ sc)))) cases)).
+Print astats.
 """ % (b(FIN_WF == "none"), b(FIN_WF != "full"),
        # full: the official boolean WF of Corr/CorrPipeline.v (wf_b_spec: wf_b sc c0 = true <-> WF sc c0)
        "wf_b sc c0" if FIN_WF == "full" else "wfb sc c0", "crd_ok sc c0" if DYN_WF == "crd" else "true", ";\n".join(cases))
@@ -197,4 +223,6 @@ m = re.search(r"stats = \((\d+), (\d+), (\d+)\)", flat)
 if m: print("WF+kf_free first runs: %s/%d; runs with an accepted DELETE of a finalizer-held object: %s (of which reach inventory-set: %s)" % (m.group(1), n, m.group(2), m.group(3)))
 m = re.search(r"dstats = \((\d+), (\d+), (\d+), (\d+)\)", flat)
 if m: print("dynamic kinds (WF first runs): CR applied ok with its CRD absent before the run: %s; CR apply failed (CRD absent): %s; validation error naming such a CR: %s; tracked id of unknown kind: %s" % m.groups())
+m = re.search(r"astats = \((\d+), (\d+), (\d+)\)", flat)
+if m: print("APIService fallback (WF first runs): apply PATCH died under the server-side option: %s; of which the apply succeeded: %s; of which the fallback created the object: %s" % m.groups())
 print("done", n)
